@@ -29,8 +29,9 @@ type WorkerIn struct {
 	ReplayDir string   `json:"replay_dir"`
 	Out       string   `json:"out"`
 	MaxSteps  int      `json:"max_steps"`
-	RawLib    bool     `json:"raw_lib,omitempty"` // uninstrumented cross-check
-	Known     []string `json:"known,omitempty"`   // signatures listed in known_findings.json
+	RawLib    bool     `json:"raw_lib,omitempty"`    // uninstrumented cross-check
+	Known     []string `json:"known,omitempty"`      // signatures listed in known_findings.json
+	Procs     int      `json:"gomaxprocs,omitempty"` // GOMAXPROCS of this worker (0: leave the default)
 }
 
 // Sample is a written-out case for the evidence file.
@@ -103,6 +104,7 @@ type ReplayFile struct {
 	Steps    int      `json:"steps"`
 	Events   []string `json:"event_log"`
 	Tasks    []string `json:"tasks_at_end"`
+	Procs    int      `json:"gomaxprocs,omitempty"`
 }
 
 var replayN int
@@ -214,6 +216,9 @@ func RunWorker(t *testing.T, scenarios map[string]*Scenario) {
 		in.MaxSteps = 30000
 	}
 	simrt.RawLib = in.RawLib
+	if in.Procs > 0 {
+		runtime.GOMAXPROCS(in.Procs)
+	}
 	Watchdog(60 * time.Second)
 	start := time.Now()
 	out := &WorkerOut{Prop: in.Prop, Worker: in.Worker, Faults: map[string]int{}, Probes: map[string]int{}, Cover: map[string]int{}, Policies: map[string]int{}}
@@ -273,6 +278,9 @@ func RunWorker(t *testing.T, scenarios map[string]*Scenario) {
 		if err := json.Unmarshal(b, &rf); err != nil {
 			fmt.Fprintln(os.Stderr, "INFRA: bad replay file:", err)
 			os.Exit(2)
+		}
+		if rf.Procs > 0 {
+			runtime.GOMAXPROCS(rf.Procs)
 		}
 		r := Execute(t, sc, rf.Plan, NewReplayChooser(rf.Tape), in.MaxSteps, true)
 		progress.Add(1)
@@ -463,7 +471,7 @@ func minimise(t *testing.T, sc *Scenario, in *WorkerIn, p *Plan, r *RunResult, s
 		}
 		fmt.Fprintf(os.Stderr, "note: run %s (%s) did not replay from its own tape in-process: %s; deferring to a fresh process\nplan=%s\n", runID, clause, got, p)
 		rf := ReplayFile{Property: in.Prop, Clause: r.Viol.Clause, Stage: r.Viol.Stage, Class: r.Viol.Class, Msg: r.Viol.Msg,
-			Seed: in.Seed, Run: runID, Plan: p, Tape: tape, Hash: r.Hash, Steps: r.Steps}
+			Seed: in.Seed, Run: runID, Plan: p, Tape: tape, Hash: r.Hash, Steps: r.Steps, Procs: in.Procs}
 		_ = os.MkdirAll(in.ReplayDir, 0o755)
 		name := filepath.Join(in.ReplayDir, fmt.Sprintf("%s-%d-w%d-%d-unstable.json", in.Prop, in.Seed, in.Worker, nextReplayN()))
 		b, _ := json.MarshalIndent(rf, "", " ")
@@ -541,7 +549,7 @@ func minimise(t *testing.T, sc *Scenario, in *WorkerIn, p *Plan, r *RunResult, s
 		final = Execute(t, sc, cur, NewReplayChooser(curTape), in.MaxSteps, true)
 	}
 	rf := ReplayFile{Property: in.Prop, Clause: final.Viol.Clause, Stage: final.Viol.Stage, Class: final.Viol.Class, Msg: final.Viol.Msg,
-		Seed: in.Seed, Run: runID, Plan: cur, Tape: curTape, Hash: final.Hash, Steps: final.Steps, Events: final.Events}
+		Seed: in.Seed, Run: runID, Plan: cur, Tape: curTape, Hash: final.Hash, Steps: final.Steps, Events: final.Events, Procs: in.Procs}
 	for _, ti := range final.Tasks {
 		rf.Tasks = append(rf.Tasks, fmt.Sprintf("T%d %s lib=%v %s@%s %s", ti.ID, ti.Name, ti.Lib, ti.State, ti.Site, ti.Panic))
 	}
